@@ -760,7 +760,11 @@ func (g *gen) famShapes(id string, count, maxFields int) []*Scenario {
 				if g.rng.Intn(2) == 0 {
 					d.PreSpec = fmt.Sprintf("K%d%d int", s, di)
 				}
-				if g.rng.Intn(3) == 0 {
+				if len(gdoc) == 0 && di == 0 {
+					gdoc = []Marker{tmMarker([]string{"required", "minlength", "gt"}[g.rng.Intn(3)])}
+					d.GroupDoc = gdoc
+				}
+				if g.rng.Intn(3) == 0 || di == 0 {
 					r := guarded[g.rng.Intn(len(guarded))]
 					dup := false
 					for _, m := range gdoc {
@@ -865,6 +869,12 @@ func (g *gen) famMatrix(id string, rules []string, types []*TypeX, perPkg int, w
 				n++
 				d := &Decl{Name: fmt.Sprintf("S%d", n)}
 				f := &Field{Names: []string{"F"}, Type: t, Markers: []Marker{g.marker(r, t)}}
+				if g.rng.Intn(6) == 0 {
+					f.Names = []string{"F", "G"} // `F, G T`: every name is validated on its own
+					if g.rng.Intn(2) == 0 {
+						f.Names = []string{"F", "G", "H"}
+					}
+				}
 				switch g.rng.Intn(4) {
 				case 0:
 					d.Fields = []*Field{{Names: []string{"In"}, Nested: []*Field{f}}}
@@ -1207,7 +1217,28 @@ func (g *gen) corpusC07(id string) []*Scenario {
 	g.sc = sc4
 	sc4.Decls = []*Decl{d4}
 	sc4.Values["PtrDeep"] = g.structValues(d4, 6)
-	return []*Scenario{sc, sc2, sc3, sc4}
+	// an embedded pointer to a named struct, required (C02: nil pointer is the zero value)
+	sc5 := newScenario(id + "emb")
+	g.sc = sc5
+	sc5.Named = append(sc5.Named, NamedDecl{"Base", "struct {\n\tX int\n}"})
+	baseP := &TypeX{Kind: "ptr", Src: "*Base"}
+	d5 := &Decl{Name: "Emb", Fields: []*Field{
+		{Names: []string{"Base"}, Type: baseP, Embed: true, Markers: []Marker{req}},
+		{Names: []string{"Name"}, Type: stringT, Markers: []Marker{req}},
+	}}
+	sc5.Decls = []*Decl{d5}
+	sc5.Values["Emb"] = g.structValues(d5, 6)
+	// two length rules on one field with valid values longer than 32 code points
+	lenMs := []Marker{{ID: "minlength", Expr: "1", HasExpr: true}, {ID: "maxlength", Expr: "64", HasExpr: true}}
+	d6 := &Decl{Name: "Long", Fields: []*Field{{Names: []string{"User"}, Type: stringT, Markers: lenMs}}}
+	d7 := &Decl{Name: "LongIn", Fields: []*Field{{Names: []string{"In"}, Nested: []*Field{{Names: []string{"City"}, Type: stringT,
+		Markers: []Marker{{ID: "minlength", Expr: "2", HasExpr: true}, {ID: "maxlength", Expr: "100", HasExpr: true}, {ID: "length", Expr: "40", HasExpr: true}}}}}}}
+	sc6 := newScenario(id + "long")
+	g.sc = sc6
+	sc6.Decls = []*Decl{d6, d7}
+	sc6.Values["Long"] = g.structValues(d6, 2)
+	sc6.Values["LongIn"] = g.structValues(d7, 2)
+	return []*Scenario{sc, sc2, sc3, sc4, sc5, sc6}
 }
 
 // famBounds: one numeric field carrying a lower AND an upper bound marker (both source orders; bounds
@@ -1253,6 +1284,57 @@ func (g *gen) famBounds(id string, types []*TypeX) []*Scenario {
 				cur.Decls = append(cur.Decls, d)
 				cur.Values[d.Name] = g.structValues(d, 0)
 			}
+		}
+	}
+	if cur != nil {
+		out = append(out, cur)
+	}
+	return out
+}
+
+// famTwoLevel: the same rule at struct level (bound A) and on one field (bound B != A); the other fields only get the
+// struct-level rule. Both rules apply to the doubly marked field: a value between the two bounds violates exactly one.
+func (g *gen) famTwoLevel(id string, rules []string, types []*TypeX) []*Scenario {
+	var out []*Scenario
+	var cur *Scenario
+	n := 0
+	for _, t := range types {
+		for _, r := range rules {
+			ok := false
+			for _, x := range rulesFor(t) {
+				if x == r {
+					ok = true
+				}
+			}
+			if !ok {
+				continue
+			}
+			var a, b Marker
+			for tries := 0; tries < 20; tries++ {
+				a, b = g.marker(r, t), g.marker(r, t)
+				if a.Expr != b.Expr {
+					break
+				}
+			}
+			if a.Expr == b.Expr {
+				continue
+			}
+			if cur == nil || len(cur.Decls) >= 10 {
+				if cur != nil {
+					out = append(out, cur)
+				}
+				cur = newScenario(fmt.Sprintf("%s%03d", id, len(out)))
+				g.sc = cur
+			}
+			n++
+			d := &Decl{Name: fmt.Sprintf("L%d", n), Markers: []Marker{a}}
+			d.Fields = []*Field{
+				{Names: []string{"Plain"}, Type: t},
+				{Names: []string{"Own"}, Type: t, Markers: []Marker{b}},
+				{Names: []string{"Tail"}, Type: t},
+			}
+			cur.Decls = append(cur.Decls, d)
+			cur.Values[d.Name] = g.structValues(d, 6)
 		}
 	}
 	if cur != nil {
